@@ -42,6 +42,10 @@ def cases(chk):
         {"variant": "XX", "edge": False, "passive": False, "cuts": [], "corrupt": True, "immediate": 0, "down": 0, "up": 0, "chunk": 0, "seed": 6},
         {"variant": "IK", "edge": False, "passive": False, "cuts": ["before-answer"], "corrupt": True, "immediate": 0, "down": 0, "up": 0, "chunk": 2, "seed": 7},
     ]
+    corpus += [
+        {"variant": "XX", "edge": False, "passive": False, "cuts": ["closed-in-read"], "corrupt": False, "immediate": 0, "down": 2, "up": 1, "chunk": 0, "seed": 8},
+        {"variant": "IK", "edge": False, "passive": True, "cuts": ["closed-in-read", "closed-in-read"], "corrupt": False, "immediate": 1, "down": 1, "up": 1, "chunk": 3, "seed": 9},
+    ]
     for c in corpus:
         yield "login", c
     # frames written together with the server's reply of a resumed login: the race between the end of the handshake and the network thread
@@ -51,7 +55,7 @@ def cases(chk):
     for _ in range(chk.scale(60, 1500)):
         v = r.choice(VARIANTS)
         yield "login", {"variant": v, "edge": r.random() < 0.3, "passive": r.random() < 0.4,
-                        "cuts": [r.choice(["before-answer", "mid-answer", "after-handshake"]) for _i in range(r.choice([0, 0, 1, 1, 2]))],
+                        "cuts": [r.choice(["before-answer", "mid-answer", "after-handshake", "closed-in-read"]) for _i in range(r.choice([0, 0, 1, 1, 2]))],
                         "corrupt": r.random() < 0.15, "immediate": r.choice([0, 0, 1, 2, 4]) if v == "IK" else 0,
                         "down": r.randint(0, 5), "up": r.randint(0, 5), "chunk": r.choice([0, 1, 2, 3, 7, 16, 64]), "seed": r.randrange(1 << 30)}
 
@@ -88,6 +92,10 @@ class World(object):
         self.out = bytearray()          # bytes the client wrote on the current connection
         self.top_nodes = []
         self.top_events = []
+        self.reentrant_disconnects = 0
+        self.conn_no = lambda: 0
+        from yowsup.layers import YowLayerEvent
+        from yowsup.layers.network.layer import YowNetworkLayer
 
         class Bottom(YowLayer):
             def send(self, d):
@@ -102,6 +110,13 @@ class World(object):
             def receive(self, d):
                 w.top_nodes.append(d)
                 coop.log(("deliver", d))
+                if hasattr(d, "getAttributeValue") and str(d["id"] or "").startswith("dc"):
+                    # what the auth layer and the network layer do for a <failure/> or a stream error, synchronously, while the segment
+                    # layer is still inside its receive loop: DISCONNECT goes down, the network layer closes and the layer right above
+                    # it is told DISCONNECTED at once
+                    w.reentrant_disconnects += 1
+                    coop.log(("disconnect", w.conn_no()))
+                    self.getStack().emitEvent(YowLayerEvent(YowNetworkLayer.EVENT_STATE_DISCONNECTED, reason="closed by the stack"))
 
             def send(self, d):
                 self.toLower(d)
@@ -142,6 +157,7 @@ def run_case(chk, stream, case):
     del coop.CoopQueue.instances[:]
     w = World(case)
     c = coop.Coop()
+    w.conn_no = lambda: st["conn"]
     ctx = "case %s" % dict((k, v) for k, v in case.items())
     st = {"conn": 0, "server": None, "segs": {}, "done": False, "problem": None, "sent_frames": [], "hello_sent": False, "app_go": False, "app_done": False}
     chk.hit("variant:" + case["variant"], "cuts:%d" % len(case["cuts"]), "corrupt:%s" % case["corrupt"])
@@ -198,10 +214,26 @@ def run_case(chk, stream, case):
                 reply = st["server"].take_output()
                 if cut == "mid-answer":
                     w.bottom.receive(reply[:max(1, len(reply) // 2)])
-                elif cut == "after-handshake":
+                elif cut in ("after-handshake", "closed-in-read"):
                     deliver(reply)
                     if not wait(lambda: (pump(), st["server"].stage == "transport")[1] and w.noise._wa_noiseprotocol.state == "transport", "the first handshake to complete"):
                         return
+                if cut == "closed-in-read":
+                    # the server's last frame makes the stack close the connection while the segment layer is still in its loop, and
+                    # the same network read carries the beginning of a further frame
+                    srv0 = st["server"]
+                    srv0.take_output()
+                    srv0.send_frame(encode_node(ProtocolTreeNode("iq", {"id": "dc%d" % st["conn"], "type": "result"})))
+                    srv0.send_frame(encode_node(ProtocolTreeNode("iq", {"id": "lost%d" % st["conn"], "type": "result"}, [ProtocolTreeNode("x", data=b"z" * 40)])))
+                    data = srv0.take_output()
+                    first = 3 + int.from_bytes(data[:3], "big")
+                    n0 = w.reentrant_disconnects
+                    coop.point()
+                    w.bottom.receive(data[:first + r.randint(1, 9)])
+                    if w.reentrant_disconnects == n0:
+                        st["problem"] = "the closing frame did not reach the top of the stack"
+                        return
+                    continue
                 disconnect()
             connect(case["corrupt"])
             if not wait(lambda: (pump(), st["server"].stage not in ("prologue", "hello"))[1], "the client hello"):
@@ -271,7 +303,7 @@ def run_case(chk, stream, case):
     if srv.errors:
         fails.append(oracle("C04:server-cannot-read-client", "%s: %s" % (ctx, srv.errors)))
         return fails
-    expected_variant = "IK" if "after-handshake" in case["cuts"] else case["variant"]     # a completed handshake taught the client the server's key
+    expected_variant = "IK" if ("after-handshake" in case["cuts"] or "closed-in-read" in case["cuts"]) else case["variant"]     # a completed handshake taught the client the server's key
     if srv.variant != expected_variant:
         fails.append(oracle("C04:wrong-handshake-variant", "%s: the server saw a %s handshake" % (ctx, srv.variant)))
     p = srv.client_payload
@@ -284,7 +316,7 @@ def run_case(chk, stream, case):
     stored_key = bytes(stored.server_static_public.data) if stored is not None and stored.server_static_public is not None else None
     if case["variant"] in ("XX", "XXfallback") and stored_key != srv.static_public():
         fails.append(oracle("C04:new-server-key-not-stored", "%s: the profile does not hold the server's key after the handshake" % ctx))
-    got = [n["id"] for n in w.top_nodes if hasattr(n, "getAttributeValue") and n.tag != "failure"]
+    got = [n["id"] for n in w.top_nodes if hasattr(n, "getAttributeValue") and n.tag != "failure" and not str(n["id"]).startswith("dc")]
     if got != st["sent_frames"]:
         fails.append(oracle("C04:server-frames-lost-or-reordered", "%s: the server sent %s, the stack delivered %s" % (ctx, st["sent_frames"], got)))
     from yowsup.layers.coder.decoder import ReadDecoder
@@ -373,7 +405,7 @@ def replay_on_model(chk, c, w, st, ctx):
     mup = out.split(" up=")[1].split(" q=")[0].split()
     real_state = w.noise._wa_noiseprotocol.state
     mframes = [u for u in mup if u.startswith("f%d." % st["conn"])]
-    rframes = [n for n in w.top_nodes if hasattr(n, "getAttributeValue") and n.tag != "failure"]
+    rframes = [n for n in w.top_nodes if hasattr(n, "getAttributeValue") and n.tag != "failure" and not str(n["id"]).startswith("dc")]
     if mstate != real_state or len(mframes) != len(rframes) or (("failure%d" % st["conn"]) in mup) != any(getattr(n, "tag", None) == "failure" for n in w.top_nodes):
         fails.append(corr("outcome", "%s: impl state=%s frames=%d failure=%s   model %s" % (ctx, real_state, len(rframes), any(getattr(n, "tag", None) == "failure" for n in w.top_nodes), out)))
     return fails
